@@ -145,6 +145,17 @@ def authentication(E):
                 item2.attrs['authentication'].cls.name == 'AuthenticationSimple'
                 and z3.And(beq(E, item2.attrs['authentication'].attrs['username'], user, 'u2'),
                            beq(E, item2.attrs['authentication'].attrs['password'], pw, 'p2')))
+        # frame condition of parse: decoding ANOTHER entry of the same kind touches nothing but that entry
+        user3 = E.fresh_bytes('user3', 0, 65535)
+        pw3 = E.fresh_bytes('pw3')
+        item3 = E.call(AC, [])
+        E.call(E.getattr(item3, 'parse'), [W.cat(b'\x80', W.be(mk_int(user3.len_term()), 2), user3, pw3)])
+        E.prove('content:a_decoded_value_is_unchanged_by_decoding_another_one[simple]',
+                item3.attrs['authentication'] is not item2.attrs['authentication']
+                and z3.And(beq(E, item2.attrs['authentication'].attrs['username'], user, 'u4'),
+                           beq(E, item2.attrs['authentication'].attrs['password'], pw, 'p4')))
+        E.prove('content:decode_then_encode_reproduces_the_bytes_after_other_decodes[simple]',
+                beq(E, E.call(E.getattr(item2, 'serialize'), []), W.cat(b'\x80', exp), 'c4'))
     else:
         tok = E.input('token', E.fresh_bytes('token'))
         a = E.call(E.lookup(AU + 'AuthenticationBearer'), [tok])
@@ -158,6 +169,14 @@ def authentication(E):
         E.call(E.getattr(item2, 'parse'), [W.cat(b'\x81', tok)])
         E.prove('content:decodes_to_bearer_with_same_token', item2.attrs['authentication'].cls.name == 'AuthenticationBearer'
                 and beq(E, item2.attrs['authentication'].attrs['token'], tok, 't2'))
+        tok3 = E.fresh_bytes('token3')
+        item3 = E.call(AC, [])
+        E.call(E.getattr(item3, 'parse'), [W.cat(b'\x81', tok3)])
+        E.prove('content:a_decoded_value_is_unchanged_by_decoding_another_one[bearer]',
+                item3.attrs['authentication'] is not item2.attrs['authentication']
+                and beq(E, item2.attrs['authentication'].attrs['token'], tok, 't4'))
+        E.prove('content:decode_then_encode_reproduces_the_bytes_after_other_decodes[bearer]',
+                beq(E, E.call(E.getattr(item2, 'serialize'), []), W.cat(b'\x81', tok), 'c4'))
 
 
 TG = X + 'tagging.py::TaggingMetadata'
